@@ -1,0 +1,11 @@
+//go:build verif
+
+package proxy
+
+// Verification hook for property C14 (play packets during configuration).
+// Add-only, compiled only with -tags verif; no existing behaviour is changed.
+
+// SwitchToConfigState runs the real play -> configuration switch of the player's client
+// connection (StartUpdate, outbound state change, play packet queue), exactly as the client
+// and backend play session handlers trigger it.
+func (v *VerifC11Player) SwitchToConfigState() { v.p.switchToConfigState() }
